@@ -316,6 +316,28 @@ func init() {
 		emitList(e, "createCalls", "pullStreamFactory.Create: tracked calls", fcCalls)
 		emitList(e, "createConds", "pullStreamFactory.Create: if conditions", fcConds)
 
+		// ---- media/global.go: Regist / Unregist run under registLock (used by c20_one_stream)
+		gf := Parse("media/global.go")
+		lockedFn := func(fn string) bool {
+			b := body(gf, "", fn)
+			if b == nil || len(b.List) < 2 {
+				return false
+			}
+			first, ok1 := b.List[0].(*ast.ExprStmt)
+			second, ok2 := b.List[1].(*ast.DeferStmt)
+			return ok1 && ok2 && Src(first.X) == "registLock.Lock()" && Src(second.Call) == "registLock.Unlock()"
+		}
+		e.P("/-- media.Regist and media.Unregist run entirely under registLock (Lock(); defer Unlock() first) -/")
+		e.P("def pullRegistLocked : Bool := %s", LeanBool(lockedFn("Regist") && lockedFn("Unregist")))
+		// GetOrCreate: Get, then route.Match, factory Create, idle task for non-keepalive routes
+		var gocCalls []string
+		if b := body(gf, "", "GetOrCreate"); b != nil {
+			gocCalls = calls(b, oneOf("Get", "Match", "Can", "Create", "runZeroConsumersCloseTask", "CanonicalPath"))
+		} else {
+			e.Unknown("GetOrCreate")
+		}
+		emitList(e, "getOrCreateCallsC20", "media.GetOrCreate: tracked calls", gocCalls)
+
 		// ---- the requesters: a nil stream becomes a not-found answer
 		type caller struct{ file, recv, fn, lean string }
 		for _, c := range []caller{
